@@ -123,6 +123,7 @@ def check(ctx):
             ctx.disagree("bs_greek", case, got, m_)
     # ---------------- module Greeks (closed form or autogreek of the module's own price)
     from pfhedge.nn import BSEuropeanOption, BSEuropeanBinaryOption, BSAmericanBinaryOption, BSLookbackOption
+    dual_reqs, dual_meta = [], []
     for _ in range(60 if ctx.tier == "quick" else 900):
         which = g.choice(["european", "european_binary", "american_binary", "lookback"])
         pd = which in ("american_binary", "lookback")
@@ -149,11 +150,28 @@ def check(ctx):
         got = float(val)
         pricefn = {"european": "european_price", "european_binary": "european_binary_price",
                    "american_binary": "american_binary_price", "lookback": "lookback_price"}[which]
+        # model side: the SAME generic price definition evaluated at dual numbers (forward mode), with
+        # autogreek's parameterisation (spot leaf, log_moneyness = log(spot/strike))
+        dual_reqs.append({"op": "bs_dual", "fn": pricefn, "call": call,
+                          "wrt": {"delta": "spot", "gamma": "spot", "vega": "vol", "theta": "time"}[greek],
+                          "order": 2 if greek == "gamma" else 1, "elems": [enc_flt([s, t, v, k, m if pd else s])]})
+        dual_meta.append((case, got))
         fd = fd_greek(torch, pricefn, greek, s, t, v, k, m, call)
         tol = 5e-5 * max(abs(fd), abs(got), 0.05 * (1.0 / k if greek in ("delta",) else 1.0 / (k * k) if greek == "gamma" else 1.0))
         if abs(got - fd) > tol:
             ctx.fail(f"module {which}.{greek} is not the derivative of the module's own price", case,
                      key=f"module:{which}.{greek}:not-derivative", detail={"module": got, "finite_difference": fd})
+    try:
+        douts = ctx.driver(dual_reqs)
+    except DriverBroken as e:
+        ctx.ties_broken.append({"kind": "driver", "detail": str(e)[:1500]})
+        douts = []
+    for (case, got), mo in zip(dual_meta, douts):
+        o = mo[0]
+        # second-order quantities go through two levels of differentiation of erf-based formulas on both sides
+        tol = 2e-5 if case["greek"] == "gamma" else 1e-7
+        if "ok" not in o or not rel_close(got, float_of_bits(o["ok"]), tol, 1e-9):
+            ctx.disagree("module_greek_vs_dual_model", case, got, float_of_bits(o["ok"]) if "ok" in o else o)
     # ---------------- autogreek on user pricers, every accepted parameterisation
     for _ in range(120 if ctx.tier == "quick" else 2000):
         spotpar = g.choice(["spot", "moneyness", "log_moneyness"])
